@@ -555,6 +555,8 @@ pub fn push_sweep(exps: &mut Vec<Exp>, depth: usize) {
         seed_vault_drained(),
         seed_vault_drained_shorts(),
         seed_funding_exceeds_margin(),
+        seed_funding_receiver_slightly_under(true),
+        seed_funding_receiver_slightly_under(false),
     ];
     for c in covering_configs() {
         let mut e = Exp::new("configuration sweep", c, alpha.clone(), seeds.clone(), depth);
@@ -675,8 +677,8 @@ pub fn run_c03(tier: Tier) -> i32 {
         Tier::Quick => {
             exps.push(Exp::new("base", cfg_with(true, true, 0), alpha.clone(), std_seeds(&tier), 3));
             exps.push(Exp::new("base", cfg_with(false, true, 250_000), alpha.clone(), std_seeds(&tier), 4));
-            exps.push(Exp::new("liquidation band", cfg_liq(true, true, 250_000), liq_alpha(false), liq_seeds(), 3));
-            exps.push(Exp::new("liquidation band", cfg_liq(false, false, 0), liq_alpha(false), liq_seeds(), 3));
+            exps.push(Exp::new("liquidation band", cfg_liq(true, true, 250_000), liq_alpha(false), liq_seeds_f(), 3));
+            exps.push(Exp::new("liquidation band", cfg_liq(false, false, 0), liq_alpha(false), liq_seeds_f(), 3));
             exps.push(Exp::new("liquidation band", cfg_liq(true, true, D), liq_alpha(false), liq_seeds(), 3));
         }
         Tier::Thorough => {
@@ -684,7 +686,7 @@ pub fn run_c03(tier: Tier) -> i32 {
                 for fees in [false, true] {
                     for plr in [0, 250_000] {
                         exps.push(Exp::new("base", cfg_with(cw20, fees, plr), alpha.clone(), std_seeds(&tier), 4));
-                        exps.push(Exp::new("liquidation band", cfg_liq(cw20, fees, plr), liq_alpha(false), liq_seeds(), 4));
+                        exps.push(Exp::new("liquidation band", cfg_liq(cw20, fees, plr), liq_alpha(false), liq_seeds_f(), 4));
                     }
                     exps.push(Exp::new("liquidation band", cfg_liq(cw20, fees, D), liq_alpha(false), liq_seeds(), 3));
                 }
@@ -1141,6 +1143,14 @@ fn liq_seeds() -> Vec<Vec<Act>> {
     ]
 }
 
+/// liq_seeds plus slightly under-margined positions that have been credited funding they have not collected
+fn liq_seeds_f() -> Vec<Vec<Act>> {
+    let mut v = liq_seeds();
+    v.push(seed_funding_receiver_slightly_under(true));
+    v.push(seed_funding_receiver_slightly_under(false));
+    v
+}
+
 /// liq_alpha plus, for every trader holding a position, oracle prices at which the oracle-priced
 /// margin ratio (funding owed included) sits just below / just above maintenance
 fn alpha_c06(w: &mut World, s: &EngSt) -> Vec<Act> {
@@ -1216,6 +1226,8 @@ pub fn run_c06(tier: Tier) -> i32 {
         Act::open("carol", true, 35 * D, 2 * D),
         Act::blk(1200),
     ]);
+    seeds.push(seed_funding_receiver_slightly_under(true));
+    seeds.push(seed_funding_receiver_slightly_under(false));
     let mut push = |c: Cfg, d: usize| {
         exps.push(Exp { setup: None, name: "liq".into(), cfg: c, traders: T3.to_vec(), seeds: seeds.clone(), alpha: Alpha::Dyn(alpha_c06), depth: d, init_mon: Value::Null, raw: false });
     };
